@@ -22,8 +22,8 @@ ASSUMPTIONS = [
     "RouterOS: a block is a section (its row is one path word), leaves live under sections (a leaf outside every section does not exist in RouterOS exports and is outside the domain)",
 ]
 EXHAUSTIVE = {"quick": True, "thorough": True}
-FLOORS = {"quick": {"roundtrips": 20000, "vendors": 14, "fixpoints": 20000, "custom_indent_roundtrips": 5000, "device_texts": 1500, "annotations_written": 1500},
-          "thorough": {"roundtrips": 400000, "vendors": 14, "fixpoints": 400000, "custom_indent_roundtrips": 80000, "device_texts": 25000, "annotations_written": 25000}}
+FLOORS = {"quick": {"roundtrips": 20000, "vendors": 14, "fixpoints": 20000, "custom_indent_roundtrips": 5000, "device_texts": 1500, "annotations_written": 1500, "nokia_nested_configure_rows": 150},
+          "thorough": {"roundtrips": 400000, "vendors": 14, "fixpoints": 400000, "custom_indent_roundtrips": 80000, "device_texts": 25000, "annotations_written": 25000, "nokia_nested_configure_rows": 2500}}
 WORDS = ["a", "b1", "Eth-Trunk1", "10.0.0.1/24", "x.y", "k=v", "q_1", "peer", "description", "1", "ge-0/0/1", "descr:foo", "100:1"]
 BRACE = {"juniper", "ribbon", "nokia"}
 KNOWN = {
@@ -276,6 +276,20 @@ def run_vendor(spec, acc):
             t = random_tree(rng, maxd=4)
             if in_domain(vname, t):
                 device_text_case(vname, t, rng.randrange(1 << 48), acc)
+    if vname == "nokia":
+        # a nested row that reads exactly `configure` is an ordinary row (only the top-level wrapper is special)
+        for j in range(300 if tier == "quick" else 5000):
+            t = random_tree(rng, maxd=3)
+            blocks = [n for n in t if n[1]] or None
+            if not in_domain(vname, t) or not blocks:
+                continue
+            tgt = rng.choice(blocks)
+            if rng.random() < 0.5 and tgt[1][0][1]:
+                tgt = tgt[1][0]
+            if all(r != "configure" for r, _ in tgt[1]):
+                tgt[1].insert(rng.randrange(len(tgt[1]) + 1), ["configure", [] if rng.random() < 0.5 else [["router Base", []]]])
+            acc.count("nokia_nested_configure_rows")
+            roundtrip(vname, t, "plain", acc)
     if vname == "nokia":
         # a device text wraps the configuration in `configure { ... }`, possibly followed by other top-level blocks: the wrapper is transparent
         from annet.annlib.tabparser import parse_to_tree
